@@ -145,8 +145,14 @@ class PlainViolation:
         return self._json
 
 
+CHILD_TIMEOUT = float(os.environ.get('VERIF_CHILD_TIMEOUT_S', '90'))
+
+
 def in_child(fn, *args):
-    """Run fn(*args) in a forked child; return its (pickled) result."""
+    """Run fn(*args) in a forked child; return its (pickled) result.  A child
+    that does not finish within CHILD_TIMEOUT seconds (C-level unbounded work
+    the step meter cannot see) is killed and reported as ChildFailed."""
+    import select
     r, w = os.pipe()
     sys.stdout.flush()
     sys.stderr.flush()
@@ -167,8 +173,31 @@ def in_child(fn, *args):
         finally:
             os._exit(code)
     os.close(w)
-    with os.fdopen(r, 'rb') as f:
-        data = f.read()
+    chunks = []
+    deadline = time.time() + CHILD_TIMEOUT
+    timed_out = False
+    while True:
+        left = deadline - time.time()
+        if left <= 0:
+            timed_out = True
+            break
+        ready, _, _ = select.select([r], [], [], min(left, 5.0))
+        if not ready:
+            continue
+        b = os.read(r, 1 << 20)
+        if not b:
+            break
+        chunks.append(b)
+    os.close(r)
+    if timed_out:
+        try:
+            os.kill(pid, signal.SIGKILL)
+        except OSError:
+            pass
+        os.waitpid(pid, 0)
+        raise ChildFailed('child still running after %.0f s; killed' %
+                          CHILD_TIMEOUT)
+    data = b''.join(chunks)
     _, status = os.waitpid(pid, 0)
     if not data:
         raise ChildFailed('child exited with status %d and no result' %
